@@ -143,7 +143,9 @@ func runC11(w *World, r *Report) {
 		r.Check(ok, "R3", "GetTxnPoliciesData/lookup-by-pinned-version", gd.Pos(), "policiesVersions is indexed by getTxnPoliciesVersion(txnID), not by the current version")
 		for _, alt := range ReturnAlts(gd, 0) {
 			p := Path(alt.Val)
-			found := condsHave(alt.Conds, true, func(v ssa.Value) bool { return strings.HasSuffix(Path(v), "#1") && strings.Contains(Path(v), ".policiesVersions[") })
+			found := condsHave(alt.Conds, true, func(v ssa.Value) bool {
+				return strings.HasSuffix(Path(v), "#1") && strings.Contains(Path(v), ".policiesVersions[")
+			})
 			okR := strings.Contains(p, ".policiesVersions[") && strings.HasSuffix(p, "#0") && found || isCallTo0(alt.Val, "TxnPoliciesAccessor).GetCurrentPoliciesData") && !found
 			r.Check(okR, "R3", "GetTxnPoliciesData/returns-pinned", posOf(alt.Ret), "returns the pinned version's data when present (fallback to current only when it is gone): %s", trunc(p, 70))
 		}
